@@ -99,7 +99,7 @@ def writerOp (d : St) (x : Side) (id : Nat) (f : Mem → LBuf → Option (Mem ×
       let s' := setStream { d.s with m := m' } x id (fun y => { y with send := l' })
       ({ d with s := s' }, s!"ok wlen={l'.len}" ++ suffix s' x id)
 
-def step1 (d : St) (line : String) : St × String :=
+def step0 (d : St) (line : String) : St × String :=
   match Drv.words line with
   | "init" :: qc :: cls =>
     ({ s := { m := Mem.create (cls.map Drv.C06.parseCls), qcap := Drv.nat! qc, held := cls.map (fun _ => []) },
@@ -138,6 +138,15 @@ def step1 (d : St) (line : String) : St × String :=
       let (m', r') := st.recv.release d.s.m
       let s' := setStream { d.s with m := m' } (side x) (Drv.nat! id) (fun y => { y with recv := r' })
       ({ d with s := s' }, "ok" ++ suffix s' (side x) (Drv.nat! id))
+  | ["reuse", x, id] =>
+    -- Stream.ReleaseReadAndReuse: release what was read; an entirely consumed single-slice read buffer becomes the send buffer
+    match (d.s.me (side x)).find (Drv.nat! id) with
+    | none => (d, "missing")
+    | some st =>
+      let sm : StreamM := { send := st.send, recv := st.recv, pending := st.pending, inFallback := st.inFallback }
+      let (m', sm') := reuse d.s.m sm
+      let s' := setStream { d.s with m := m' } (side x) (Drv.nat! id) (fun y => { y with send := sm'.send, recv := sm'.recv })
+      ({ d with s := s' }, "ok" ++ suffix s' (side x) (Drv.nat! id))
   | ["take", c, k] =>
     let ci := Drv.nat! c
     let rec go (n : Nat) (m : Mem) (acc : List BS) : Mem × List BS :=
@@ -166,6 +175,19 @@ def step1 (d : St) (line : String) : St × String :=
     let (s', p', r) := poolPut d.s d.pool (Drv.nat! id)
     ({ d with s := s', pool := p', heldP := d.heldP.filter (· ≠ Drv.nat! id) }, s!"{r} pooled={p'.ring.length}" ++ gsuffix s')
   | _ => (d, "bad-op")
+
+def step1 (d : St) (line : String) : St × String :=
+  match Drv.words line with
+  | ["flushd", x, id] =>
+    -- a Flush that meets a full queue and retries while the peer drains it: the peer handles everything `x` wrote, then
+    -- the retried put goes through like an ordinary flush. (If the flush would not meet a full queue: an ordinary flush.)
+    let (_, r0) := flush d.s (side x) (Drv.nat! id)
+    let peer := if x = "a" then "b" else "a"
+    let d1 := if r0 = .timeout then
+        (List.range (d.mux.ch (mside x)).k.length).foldl (fun acc _ => (step0 acc s!"deliver {peer}").1) d
+      else d
+    step0 d1 s!"flush {x} {id}"
+  | _ => step0 d line
 
 def step (d : St) (line : String) : St × String :=
   if d.dead then (d, "dead") else
